@@ -37,6 +37,13 @@ def hostile_dgram(r, state):
     x = r.random()
     if x < 0.12:
         return gen_wire.rbytes(r, r.choice([0, 1, 2, 3, 4, 5, 6, 8, 13, 40]))
+    if state == "osc" and x < 0.24:
+        # the OSCORE option as the very last bytes of the datagram (the PDU buffer is exactly as
+        # long as the datagram): flag bits that promise as many or more bytes than the option has
+        n = r.choice([1, 2, 3, 5, 7])
+        v = bytes([r.choice([n, n, n + 1 if n < 7 else n, n | 0x08, n | 0x10])]) + gen_wire.rbytes(r, r.choice([n - 1, n - 1, n, max(0, n - 2)]))
+        return gen_wire.py_serialize("udp", r.choice([0, 1]), r.choice([2, 1, 5, 0x44]), r.randrange(65536),
+                                     gen_wire.rbytes(r, r.choice([0, 1, 4])), [(9, v)], b"")
     tok = {"obs": b"\xaa\xbb", "idle": b"\xaa\xbb", "blk2": b"\xcc\xdd", "blk1": b"\xee\xff", "client": b"\x11\x22",
            "cblk2": b"\x11\x22", "cobs": b"\x11\x22", "cq2": b"\x11\x22", "qb1": b"\xe1\xe2", "qb2": b"\xd1\xd2"}.get(
         state, bytes([r.randrange(256)]))
